@@ -321,3 +321,140 @@ func H_C09_intRoundTrip(digits int) {
 	err := e.EncodeJSON(&buf)
 	verifAssert(err == nil && buf.String() == sb.String(), "JSON integer text equals the formatted literal")
 }
+
+// ---- C09/C10: stable topological sort of a pipeline's calls (formatter) ----
+
+var c09CallIds = [6]string{"C0", "C1", "C2", "C3", "C4", "C5"}
+var c09DepNames = [6][6]string{
+	{"", "C0 uses C1", "C0 uses C2", "C0 uses C3", "C0 uses C4", "C0 uses C5"},
+	{"C1 uses C0", "", "C1 uses C2", "C1 uses C3", "C1 uses C4", "C1 uses C5"},
+	{"C2 uses C0", "C2 uses C1", "", "C2 uses C3", "C2 uses C4", "C2 uses C5"},
+	{"C3 uses C0", "C3 uses C1", "C3 uses C2", "", "C3 uses C4", "C3 uses C5"},
+	{"C4 uses C0", "C4 uses C1", "C4 uses C2", "C4 uses C3", "", "C4 uses C5"},
+	{"C5 uses C0", "C5 uses C1", "C5 uses C2", "C5 uses C3", "C5 uses C4", ""},
+}
+
+// c09Wrap places the reference where the grammar can place one: directly, in
+// an array, in a map, under a split, or in the disabled modifier.
+func c09Wrap(call *CallStm, slot int, ref *RefExp) {
+	id := "x" + c09CallIds[slot][1:]
+	switch slot % 5 {
+	case 0:
+		call.Bindings.List = append(call.Bindings.List, &BindStm{Id: id, Exp: ref})
+	case 1:
+		call.Bindings.List = append(call.Bindings.List, &BindStm{Id: id,
+			Exp: &ArrayExp{Value: []Exp{&IntExp{Value: 1}, ref}}})
+	case 2:
+		call.Bindings.List = append(call.Bindings.List, &BindStm{Id: id,
+			Exp: &MapExp{Kind: KindMap, Value: map[string]Exp{"k": ref}}})
+	case 3:
+		call.Bindings.List = append(call.Bindings.List, &BindStm{Id: id,
+			Exp: &SplitExp{Value: ref, Call: call}})
+	case 4:
+		call.Modifiers.Bindings = &BindStms{List: []*BindStm{{Id: "disabled", Exp: ref}}}
+	}
+}
+
+// H_C09_topoSort: Pipeline.topoSort (what the formatter and the compiler use
+// to order calls) on n calls with an arbitrary "uses an output of" relation,
+// under every Go map iteration order (fixedOrder = 0) or one order.
+//
+//	C09: a cycle is an error and leaves a formatter warning; otherwise the
+//	     result is a permutation with every call after the calls it uses, an
+//	     order that is already topological is left alone, and sorting the
+//	     result again changes nothing (formatting is idempotent).
+//	C10: the result does not depend on map iteration order (asserted by
+//	     running the sort twice on equal inputs).
+func H_C09_topoSort(n int, fixedOrder int) {
+	// fixedOrder != 0: maps iterate in insertion order only (larger n)
+	verifNondetMapOrder(fixedOrder == 0)
+	var uses [6][6]bool
+	build := func() *Pipeline {
+		p := &Pipeline{Id: "P"}
+		for i := 0; i < n; i++ {
+			p.Calls = append(p.Calls, &CallStm{Id: c09CallIds[i], DecId: "S" + c09CallIds[i][1:],
+				Modifiers: &Modifiers{}, Bindings: &BindStms{}})
+		}
+		for i := 0; i < n; i++ {
+			for j := 0; j < n; j++ {
+				if uses[i][j] {
+					c09Wrap(p.Calls[i], j, &RefExp{Kind: KindCall, Id: c09CallIds[j], OutputId: "o"})
+				}
+			}
+		}
+		return p
+	}
+	for i := 0; i < n; i++ {
+		for j := 0; j < n; j++ {
+			if i != j && verifBool(c09DepNames[i][j]) {
+				uses[i][j] = true
+			}
+		}
+	}
+	// transitive closure: is there a cycle?
+	reach := uses
+	for k := 0; k < n; k++ {
+		for i := 0; i < n; i++ {
+			for j := 0; j < n; j++ {
+				if reach[i][k] && reach[k][j] {
+					reach[i][j] = true
+				}
+			}
+		}
+	}
+	cyclic := false
+	for i := 0; i < n; i++ {
+		cyclic = cyclic || reach[i][i]
+	}
+	p := build()
+	err := p.topoSort()
+	verifCover("sorted")
+	if cyclic {
+		verifCover("cyclic dependency")
+		verifAssert(err != nil, "C09: a dependency cycle is reported")
+		return
+	}
+	verifAssert(err == nil, "C09: an acyclic pipeline sorts")
+	if err != nil {
+		return
+	}
+	pos := [6]int{-1, -1, -1, -1, -1, -1}
+	verifAssert(len(p.Calls) == n, "C09: no call is lost or added")
+	for k, c := range p.Calls {
+		idx := int(c.Id[1] - '0')
+		verifAssert(pos[idx] == -1, "C09: the sorted calls are a permutation")
+		pos[idx] = k
+	}
+	alreadySorted := true
+	for i := 0; i < n; i++ {
+		for j := 0; j < n; j++ {
+			if uses[i][j] {
+				verifAssert(pos[j] < pos[i], "C09: every call comes after the calls whose outputs it uses")
+				if j > i {
+					alreadySorted = false
+				}
+			}
+		}
+	}
+	if alreadySorted {
+		verifCover("already sorted")
+		for k, c := range p.Calls {
+			verifAssert(c.Id == c09CallIds[k], "C09: calls already in dependency order are not reordered (stable)")
+		}
+	}
+	// idempotent
+	var first [6]string
+	for k, c := range p.Calls {
+		first[k] = c.Id
+	}
+	verifAssert(p.topoSort() == nil, "C09: sorting again succeeds")
+	for k, c := range p.Calls {
+		verifAssert(c.Id == first[k], "C09: sorting the sorted calls changes nothing (idempotent formatting)")
+	}
+	// deterministic
+	q := build()
+	verifAssert(q.topoSort() == nil, "C09/C10: second run sorts")
+	for k, c := range q.Calls {
+		verifAssert(c.Id == first[k], "C09/C10: the order does not depend on map iteration order")
+	}
+}
